@@ -237,3 +237,10 @@ Fixpoint aconn_fresh (u : list N) (evs : list aev) : Prop :=
   | AConnect _ n _ :: r => ~ In n u /\ aconn_fresh (n :: u) r
   | _ :: r => aconn_fresh u r
   end.
+
+(* the access-side state after a history *)
+Fixpoint lite_after (allow_empty : bool) (l : lite) (evs : list aev) : lite :=
+  match evs with
+  | [] => l
+  | a :: r => lite_after allow_empty (fst (fst (lower allow_empty l a))) r
+  end.
